@@ -302,6 +302,13 @@ int main(int argc, char **argv)
 			record("Update", -1, u, (long)opt_delta.dist, 0, 0);
 			if (u != LZMA_OK) --opt_delta.dist;
 		}
+		if (ret == LZMA_MEMLIMIT_ERROR && !enc && arg(argc, argv, "raise", 0)) {
+			// the refusal is not fatal: raise memlimit_stop to what lzma_memusage() asks for and go on
+			uint64_t need = lzma_memusage(&strm);
+			lzma_ret u = lzma_memlimit_set(&strm, need);
+			record("MemlimitSet", -1, (long)need, u, 0, 0);
+			if (u == LZMA_OK) continue;
+		}
 		if (ret != LZMA_OK && ret != LZMA_BUF_ERROR)
 			break;
 		if (ret == LZMA_BUF_ERROR && action == LZMA_FINISH && g == outcap - op + (aout - strm.avail_out) && g > 0)
